@@ -50,9 +50,13 @@ func (s *scanner) reset() {
 // an error state is returned if maxNestingDepth was exceeded, otherwise successState is returned.
 func (s *scanner) pushParseState(newParseState int, successState int) int {
 	s.parseState = append(s.parseState, newParseState)
-	if len(s.parseState) <= maxNestingDepth {
+	// (the outermost value is level 0: maxNestingDepth levels may be open inside it)
+	if len(s.parseState) <= maxNestingDepth+1 {
 		return successState
 	}
+	// record the error: a code that is only returned is forgotten with the next byte
+	s.step = stateError
+	s.errContext = "exceeded max nesting depth"
 	return scanError
 }
 
